@@ -130,10 +130,29 @@ def make_priv(env, d):
     return env.REAL_PRIV.create_from_der_fmt(refp256.sec1_private_der(d))
 
 
-def build_blocks(blocks, env):
-    """-> (auth_blocks, writer ext_encryptors, {block index: decryptor})"""
+_DECOY_CACHE = {}
+
+
+def decoys_for(env, sel):
+    """a host's key store: ECC (de)cryptors for the *other* key selectors, unrelated keys"""
+    out = []
+    for s in range(4):
+        if s == sel:
+            continue
+        priv = make_priv(env, 777000 + s)
+        out.append((env.bec2file.EccEncryptor(s, priv.public_key), env.bec2file.EccDecryptor(s, priv)))
+    return out
+
+
+def build_blocks(blocks, env, decoys=False):
+    """-> (auth_blocks, writer ext_encryptors, {block index: decryptor}); with decoys the writer
+    list starts with ECC encryptors for the other key selectors (as a host with a key store has)"""
     bf = env.bec2file
     abs_, wenc, dec = [], [], {}
+    if decoys:
+        for b in blocks:
+            if b["t"] == "ecc":
+                wenc.extend(e for e, _ in decoys_for(env, b["sel"]))
     for i, b in enumerate(blocks):
         if b["t"] == "cust":
             ck = bytes.fromhex(b["ck"]) if b["ck"] else None
